@@ -157,9 +157,14 @@ class BaseCollection:
             if tag is not None and tag != item.component_name:
                 continue
             istart, iend = item.time_range
-            if istart >= end or iend <= start:
+            if istart > end or iend < start:
                 continue
-            yield item, simple and (start <= istart or iend <= end)
+            # An item whose enclosing time range only touches the requested
+            # range is neither skipped nor reported as matched: whether it
+            # matches depends on its type (RFC 4791, 9.9), the filter decides
+            touching = istart == end or iend == start
+            yield item, simple and not touching and (
+                start <= istart or iend <= end)
 
     def has_uid(self, uid: str) -> bool:
         """Check if a UID exists in the collection."""
